@@ -579,6 +579,11 @@ impl Engine for C03 {
         )
     }
 
+    fn isolate_every(&self, _unit: &UnitSpec) -> Option<u64> {
+        // process-wide or per-thread state left behind by earlier decodes must not change a result
+        Some(128)
+    }
+
     fn rule(&self) -> String {
         "cases = (base document x single fault) enumerated for every offset [truncation, I/O error of rotating kinds sticky/transient, EINTR at every read call, byte delete/duplicate, bit flips for docs <=256 B, all prefixes on the contiguous entry points, typed Hayson sinks] + seeded multi-fault search [generated/raw documents x 0-6 corruption operators x chunking/EINTR/stall/error/truncation plans biased to token boundaries] + nesting ladder in isolated child processes; a case is non-trivial when a fault actually fired inside the decode (EINTR, I/O error, truncation before the end, short read) or the document was corrupted in flight; distinct = distinct (scenario, delivered bytes, fault plan) identities among those".into()
     }
